@@ -423,6 +423,7 @@ func (e *Exec) saveLiveOuts(fr *frame, li *loopInfo, st *State) {
 // discover finds what the loop body may modify (fixpoint over a muted execution).
 func (e *Exec) discover(fr *frame, li *loopInfo, pre *State) *modset {
 	ms := newModset()
+	ms.minSeq = e.allocSeq
 	saveDisc, saveObls := e.disc, len(e.Obls)
 	saveCounters := map[string]int{}
 	for k, v := range e.counters {
